@@ -39,7 +39,7 @@ func hrrGroupFor(ch *wire.ClientHello) tls.CurveID {
 
 // C16 — GREASE ECH extensions look like real outer ECH extensions.
 func TestC16(t *testing.T) {
-	r := mon.New("C16", "parrots whose spec carries a GREASE ECH extension (no real ECH config) x N connections x {plain server, HRR server, HRR server whose HelloRetryRequest carries a cookie}: parsed encrypted_client_hello of CH1 (and CH2) checked against the spec's candidate lists: type outer, (KDF,AEAD) in the candidates, 32-byte enc, payload length = candidate + 16-byte AEAD tag; CH2 extension bytes identical to CH1; config id / enc / payload fresh across connections. distinct = (parrot, kdf, aead, payload length, config id) tuples")
+	r := mon.New("C16", "parrots whose spec carries a GREASE ECH extension (no real ECH config) x N connections (fresh spec per connection, and one spec object reused for all of them) x {plain server, HRR server, HRR server whose HelloRetryRequest carries a cookie}: parsed encrypted_client_hello of CH1 (and CH2) checked against the spec's candidate lists: type outer, (KDF,AEAD) in the candidates, 32-byte enc, payload length = candidate + 16-byte AEAD tag; CH2 extension bytes identical to CH1; config id / enc / payload fresh across connections. distinct = (parrot, kdf, aead, payload length, config id) tuples")
 	defer r.Finish(t)
 	conns := mon.Pick(128, 40000)
 	targets := 0
@@ -67,122 +67,142 @@ func TestC16(t *testing.T) {
 		if len(plens) == 0 {
 			plens[128+16] = true
 		}
-		cfgIDs := map[uint8]bool{}
-		encSeen := map[string]bool{}
-		plSeen := map[string]bool{}
-		aeadSeen := map[uint16]bool{}
-		hrrSeen := 0
-		for k := 0; k < conns; k++ {
-			var hellos [][]byte
-			hrr := k%3 == 2
-			if hrr {
-				probe, _, err, _ := buildHello(&tls.Config{ServerName: "example.test"}, p.ID, nil)
+		for _, mode := range []string{"fresh", "shared-spec"} {
+			// shared-spec: ONE spec object (UTLSIdToSpec once) applied to every connection of this
+			// pass, one after the other - what a connection leaves in the spec's GREASE ECH
+			// extension object must not be sent by the next
+			id := p.ID
+			var prep func(u *tls.UConn) error
+			conns := conns
+			pname := p.Name
+			if mode == "shared-spec" {
+				shared, err := tls.UTLSIdToSpec(p.ID)
 				if err != nil {
 					continue
 				}
-				pch, _ := wire.ParseClientHello(probe)
-				grp := hrrGroupFor(pch)
-				if grp == 0 {
-					hrr = false
-				} else {
-					scfg := peer.ServerConfig()
-					scfg.CurvePreferences = []tls.CurveID{grp}
-					opts := peer.Opts{}
-					if k%2 == 0 {
-						// every other HelloRetryRequest also carries a cookie (added before the server's
-						// transcript; the echo is cleared before the server compares the two hellos)
-						cookie := randBytes(Sub("C16cookie", k), []int{1, 32, 500}[(k/2)%3])
-						plan := &tls.VerifPlan{ClearCookie: true, RewriteOut: func(isClient bool, data []byte) []byte {
-							if isClient || len(data) < 4 || data[0] != 2 {
-								return nil
-							}
-							sh, err := wire.ParseServerHello(data)
-							if err != nil || !sh.IsHRR {
-								return nil
-							}
-							sh.SetExt(wire.ExtCookie, vec16(cookie))
-							return sh.Marshal()
-						}}
-						opts.ServerSetup = func(s *tls.Conn, _ net.Conn) { tls.VerifAttach(s, plan) }
-						r.Count("hrr_with_cookie", 1)
+				id = tls.HelloCustom
+				prep = func(u *tls.UConn) error { return u.ApplyPreset(&shared) }
+				conns = conns/4 + 8
+				pname = "shared:" + p.Name
+			}
+			cfgIDs := map[uint8]bool{}
+			encSeen := map[string]bool{}
+			plSeen := map[string]bool{}
+			aeadSeen := map[uint16]bool{}
+			hrrSeen := 0
+			for k := 0; k < conns; k++ {
+				var hellos [][]byte
+				hrr := k%3 == 2
+				if hrr {
+					probe, _, err, _ := buildHello(&tls.Config{ServerName: "example.test"}, id, prep)
+					if err != nil {
+						continue
 					}
-					h := peer.Run(peer.ClientConfig("example.test"), p.ID, scfg, opts)
-					hellos = wire.ClientHellos(h.C2S)
-					if len(hellos) == 2 {
-						hrrSeen++
+					pch, _ := wire.ParseClientHello(probe)
+					grp := hrrGroupFor(pch)
+					if grp == 0 {
+						hrr = false
 					} else {
-						r.Note(fmt.Sprintf("%s: HRR server produced %d hellos: %s", p.Name, len(hellos), h.ErrString()))
+						scfg := peer.ServerConfig()
+						scfg.CurvePreferences = []tls.CurveID{grp}
+						opts := peer.Opts{}
+						if k%2 == 0 {
+							// every other HelloRetryRequest also carries a cookie (added before the server's
+							// transcript; the echo is cleared before the server compares the two hellos)
+							cookie := randBytes(Sub("C16cookie", k), []int{1, 32, 500}[(k/2)%3])
+							plan := &tls.VerifPlan{ClearCookie: true, RewriteOut: func(isClient bool, data []byte) []byte {
+								if isClient || len(data) < 4 || data[0] != 2 {
+									return nil
+								}
+								sh, err := wire.ParseServerHello(data)
+								if err != nil || !sh.IsHRR {
+									return nil
+								}
+								sh.SetExt(wire.ExtCookie, vec16(cookie))
+								return sh.Marshal()
+							}}
+							opts.ServerSetup = func(s *tls.Conn, _ net.Conn) { tls.VerifAttach(s, plan) }
+							r.Count("hrr_with_cookie", 1)
+						}
+						opts.Prepare = prep
+						h := peer.Run(peer.ClientConfig("example.test"), id, scfg, opts)
+						hellos = wire.ClientHellos(h.C2S)
+						if len(hellos) == 2 {
+							hrrSeen++
+						} else {
+							r.Note(fmt.Sprintf("%s: HRR server produced %d hellos: %s", p.Name, len(hellos), h.ErrString()))
+						}
+					}
+				}
+				if !hrr {
+					raw, _, err, pn := buildHello(&tls.Config{ServerName: "example.test"}, id, prep)
+					if err != nil || pn != "" {
+						r.Violation(map[string]string{"kind": "build_error", "parrot": pname}, fmt.Sprintf("%v %s", err, pn), nil)
+						continue
+					}
+					hellos = [][]byte{raw}
+				}
+				var first *wire.Ext
+				for hi, raw := range hellos {
+					ch, err := wire.ParseClientHello(raw)
+					viol := func(kind, what string) {
+						r.Violation(map[string]string{"kind": kind, "parrot": pname, "hello": fmt.Sprint(hi + 1)}, fmt.Sprintf("%s CH%d: %s", pname, hi+1, what), map[string]any{"hello": mon.Hex(raw)})
+					}
+					if err != nil {
+						viol("unparseable_hello", err.Error())
+						continue
+					}
+					e := ch.Ext(wire.ExtECH)
+					if e == nil || ch.ECH == nil {
+						viol("grease_ech_missing", "spec has a GREASE ECH extension but the hello carries none")
+						continue
+					}
+					if hi == 1 && first != nil {
+						if !bytes.Equal(first.Data, e.Data) {
+							viol("grease_ech_changed_after_hrr", "the encrypted_client_hello extension of the second ClientHello differs from the first")
+						}
+						r.Count("ch2_compared", 1)
+						continue
+					}
+					first = e
+					o := ch.ECH
+					if o.Inner {
+						viol("grease_ech_type", "type is inner")
+						continue
+					}
+					if !cands[[2]uint16{o.KDF, o.AEAD}] {
+						viol("grease_ech_suite", fmt.Sprintf("(kdf,aead)=(%d,%d) is not in the spec's candidate list", o.KDF, o.AEAD))
+					}
+					if len(o.Enc) != 32 {
+						viol("grease_ech_enc_len", fmt.Sprintf("encapsulated key has %d bytes", len(o.Enc)))
+					}
+					if !plens[len(o.Payload)] {
+						viol("grease_ech_payload_len", fmt.Sprintf("payload length %d (aead %d) is not a candidate length + 16", len(o.Payload), o.AEAD))
+					}
+					cfgIDs[o.ConfigID] = true
+					aeadSeen[o.AEAD] = true
+					if encSeen[string(o.Enc)] {
+						viol("grease_ech_enc_repeats", "encapsulated key repeated across connections")
+					}
+					if plSeen[string(o.Payload)] {
+						viol("grease_ech_payload_repeats", "payload repeated across connections")
+					}
+					encSeen[string(o.Enc)] = true
+					plSeen[string(o.Payload)] = true
+					r.Case(fmt.Sprintf("%s|%d|%d|%d|%d", pname, o.KDF, o.AEAD, len(o.Payload), o.ConfigID), true)
+					if k == 0 {
+						r.Sample(map[string]any{"parrot": p.Name, "kdf": o.KDF, "aead": o.AEAD, "config_id": o.ConfigID, "enc_len": len(o.Enc), "payload_len": len(o.Payload)})
 					}
 				}
 			}
-			if !hrr {
-				raw, _, err, pn := buildHello(&tls.Config{ServerName: "example.test"}, p.ID, nil)
-				if err != nil || pn != "" {
-					r.Violation(map[string]string{"kind": "build_error", "parrot": p.Name}, fmt.Sprintf("%v %s", err, pn), nil)
-					continue
-				}
-				hellos = [][]byte{raw}
+			if len(cfgIDs) < 2 {
+				r.Violation(map[string]string{"kind": "grease_ech_config_id_constant", "parrot": pname}, fmt.Sprintf("config id took %d value(s) in %d connections", len(cfgIDs), conns), nil)
 			}
-			var first *wire.Ext
-			for hi, raw := range hellos {
-				ch, err := wire.ParseClientHello(raw)
-				viol := func(kind, what string) {
-					r.Violation(map[string]string{"kind": kind, "parrot": p.Name, "hello": fmt.Sprint(hi + 1)}, fmt.Sprintf("%s CH%d: %s", p.Name, hi+1, what), map[string]any{"hello": mon.Hex(raw)})
-				}
-				if err != nil {
-					viol("unparseable_hello", err.Error())
-					continue
-				}
-				e := ch.Ext(wire.ExtECH)
-				if e == nil || ch.ECH == nil {
-					viol("grease_ech_missing", "spec has a GREASE ECH extension but the hello carries none")
-					continue
-				}
-				if hi == 1 && first != nil {
-					if !bytes.Equal(first.Data, e.Data) {
-						viol("grease_ech_changed_after_hrr", "the encrypted_client_hello extension of the second ClientHello differs from the first")
-					}
-					r.Count("ch2_compared", 1)
-					continue
-				}
-				first = e
-				o := ch.ECH
-				if o.Inner {
-					viol("grease_ech_type", "type is inner")
-					continue
-				}
-				if !cands[[2]uint16{o.KDF, o.AEAD}] {
-					viol("grease_ech_suite", fmt.Sprintf("(kdf,aead)=(%d,%d) is not in the spec's candidate list", o.KDF, o.AEAD))
-				}
-				if len(o.Enc) != 32 {
-					viol("grease_ech_enc_len", fmt.Sprintf("encapsulated key has %d bytes", len(o.Enc)))
-				}
-				if !plens[len(o.Payload)] {
-					viol("grease_ech_payload_len", fmt.Sprintf("payload length %d (aead %d) is not a candidate length + 16", len(o.Payload), o.AEAD))
-				}
-				cfgIDs[o.ConfigID] = true
-				aeadSeen[o.AEAD] = true
-				if encSeen[string(o.Enc)] {
-					viol("grease_ech_enc_repeats", "encapsulated key repeated across connections")
-				}
-				if plSeen[string(o.Payload)] {
-					viol("grease_ech_payload_repeats", "payload repeated across connections")
-				}
-				encSeen[string(o.Enc)] = true
-				plSeen[string(o.Payload)] = true
-				r.Case(fmt.Sprintf("%s|%d|%d|%d|%d", p.Name, o.KDF, o.AEAD, len(o.Payload), o.ConfigID), true)
-				if k == 0 {
-					r.Sample(map[string]any{"parrot": p.Name, "kdf": o.KDF, "aead": o.AEAD, "config_id": o.ConfigID, "enc_len": len(o.Enc), "payload_len": len(o.Payload)})
-				}
+			r.Count("aeads_seen_"+pname, int64(len(aeadSeen)))
+			r.Count("hrr_"+pname, int64(hrrSeen))
+			if hrrSeen == 0 {
+				r.Inconclusive("no HelloRetryRequest observed for " + pname)
 			}
-		}
-		if len(cfgIDs) < 2 {
-			r.Violation(map[string]string{"kind": "grease_ech_config_id_constant", "parrot": p.Name}, fmt.Sprintf("config id took %d value(s) in %d connections", len(cfgIDs), conns), nil)
-		}
-		r.Count("aeads_seen_"+p.Name, int64(len(aeadSeen)))
-		r.Count("hrr_"+p.Name, int64(hrrSeen))
-		if hrrSeen == 0 {
-			r.Inconclusive("no HelloRetryRequest observed for " + p.Name)
 		}
 	}
 	r.Count("grease_ech_parrots", int64(targets))
